@@ -130,7 +130,8 @@ def main(tier, write_baseline=False):
         if o["name"] in seen:
             continue
         seen.add(o["name"])
-        run.violation(o["name"], "obligation refuted by %s on path %s" % (o["backend"], " ".join(o["trace"])), solver_output={"model": o["model"], "smt2": (o["smt2"] or "")[:4000]})
+        run.violation(o["name"], "obligation refuted by %s on path %s" % (o["backend"], " ".join(o["trace"])),
+                      failing_input=common.model_replay("contracts.C08", o) or common.model_replay("contracts.C01", o), solver_output={"model": o["model"], "smt2": (o["smt2"] or "")[:4000]})
     M.report(run, "C08/bounded", fails)
     M.flush_raise_baseline()
     common.apply_controls(run, tier)
